@@ -12,6 +12,7 @@ Reals are mathematical reals (z3 Real), Python ints are z3 Int.  Floating-point 
 is outside every claim made with this engine.
 """
 import itertools
+import os
 import time
 from fractions import Fraction
 
@@ -877,6 +878,7 @@ class Engine:
         s = t
         sat, m = self._check(z3.Not(s), kind="prove")
         if not sat:
+            self._maybe_dump(s, label)
             self.stats.discharged += 1
             if len(self.stats.samples) < 3:
                 self.stats.samples.append(
@@ -893,6 +895,29 @@ class Engine:
         self.cex.append(Counterexample(label, m, inputs, detail))
         self.failed_labels.add(label)
         return False
+
+    _dumped = {}
+
+    def _maybe_dump(self, goal, label):
+        """thorough tier: a sample of discharged queries is written as SMT-LIB2 for a second solver"""
+        d = os.environ.get("VERIF_DUMP_SMT")
+        if not d:
+            return
+        key = label.split("/")[0][:40]
+        if Engine._dumped.get(key, 0) >= 1 or len(Engine._dumped) >= 6:
+            return
+        Engine._dumped[key] = Engine._dumped.get(key, 0) + 1
+        try:
+            self.solver.push()
+            self.solver.add(z3.Not(goal))
+            text = self.solver.to_smt2()
+            self.solver.pop()
+            os.makedirs(d, exist_ok=True)
+            safe = "".join(c if c.isalnum() else "_" for c in key)
+            with open(os.path.join(d, f"{os.getpid()}_{safe}.smt2"), "w") as f:
+                f.write("; expected: unsat  (path condition AND NOT goal), obligation " + label + "\n" + text)
+        except Exception:
+            pass
 
     def prove_eq(self, a, b, label, detail=None):
         if is_sym(a) or is_sym(b):
